@@ -39,7 +39,8 @@ def mkcfg(kind, plan, rs=4, xf=False, unreg="stop"):
 
 
 def exhaustive_histories(depth):
-    """every op sequence of the given length (after which identical event logs are merged), for a few plans per kind"""
+    """start followed by every sequence of depth-1 further calls (for FileBodyProducer also every sequence of depth-1 calls
+    not beginning with start), for a few plans per kind; identical event logs are merged afterwards"""
     import itertools
     plans = {"fbp": [[], [3], [9, 2], [2, 0]], "fs": [[], [3], [9, 2], [2, 0]], "fsd": [[], [3], [2, 0, 4]],
              "p2p": [[0], [1, 0]]}
@@ -47,9 +48,12 @@ def exhaustive_histories(depth):
         for plan in pls:
             for unreg in (("stop", "raise", "forget") if kind == "p2p" else ("stop",)):
                 cfg = mkcfg(kind, plan, xf=(len(plan) == 1), unreg=unreg)
-                pre = [("start",)] if kind != "fbp" else []
-                for seq in itertools.product(OPS[kind] if kind == "fbp" else OPS[kind][1:], repeat=depth - len(pre)):
-                    yield cfg, pre + [(o,) for o in seq]
+                for seq in itertools.product(OPS[kind][1:], repeat=depth - 1):
+                    yield cfg, [("start",)] + [(o,) for o in seq]
+                if kind == "fbp":      # calls before startProducing too
+                    for seq in itertools.product(OPS[kind], repeat=depth - 1):
+                        if seq[0] != "start":
+                            yield cfg, [(o,) for o in seq]
 
 
 def random_history(rng):
@@ -100,7 +104,7 @@ def run(ctx):
     ctx.extra["exhaustive_histories_distinct"] = len(traces)
     ctx.extra["exhaustive_depth"] = depth
     # (b) seeded random longer histories
-    for _ in range(ctx.pick(3000, 60000)):
+    for _ in range(ctx.pick(2500, 40000)):
         cfg, ops = random_history(ctx.rng)
         t = _run(cfg, ops)
         k = json.dumps([t["cfg"], t["ev"]], sort_keys=True)
